@@ -25,4 +25,10 @@ def queries(tier):
                         qs.append(Q(f'tuple_step_lgc{lgc}_lgn{lgn}_rf{rf}_m{m:02x}', 'tuple', 'c13_tuple_step.c', defs=d, tu_defs={'VERIF_STUB_HASH': None},
                                     unwind=(2 << lgn) + 2, unwindset={'^(verif_hash128|hm_key_u64|harness|verif_mem(set|cpy)_.*|verif_new_.*)$': 42},
                                     timeout=(300 if tier == 'quick' else 1500), native_vectors=300, c_defs={'VERIF_NEW_CAPN': 40, 'VERIF_VEC_CAP': (2 << lgn)}, mem_gb=(10 if tier == 'quick' else 28)))
+    # tuple set operations on compact operands built from parts (symbolic hashes, thetas, summaries)
+    for (op, na, nb, ao, bo, ro) in [(2, 1, 1, 1, 1, 0), (2, 2, 1, 0, 1, 0), (2, 2, 2, 0, 1, 0), (1, 1, 1, 1, 1, 0), (1, 2, 2, 1, 1, 0), (1, 2, 1, 0, 1, 0), (0, 1, 1, 1, 1, 0), (0, 2, 1, 1, 1, 0), (0, 2, 2, 1, 1, 0)]:
+        cd = {'VERIF_NEW_CAPN': 16, 'VERIF_VEC_CAP': 8}
+        qs.append(Q(f'tuple_setop_op{op}_a{na}{"o" if ao else "u"}_b{nb}{"o" if bo else "u"}_r{ro}', 'tuple_setops', 'c13_setop.c', defs={'OP': op, 'NA': na, 'NB': nb, 'AORD': ao, 'BORD': bo, 'RORD': ro},
+                    unwind=max(na + nb, 2) + 2, unwindset={'^(verif_new_.*|harness|make|idx|verif_mem(set|cpy|move).*)$': 20, 'update|find|realloc_insert': 10, 'introsort_loop': 2},
+                    timeout=(400 if tier == 'quick' else 1500), native_vectors=300, c_defs=cd, mem_gb=(10 if tier == 'quick' else 28)))
     return qs
